@@ -7,6 +7,7 @@ package main
 import (
 	"fmt"
 	"sort"
+	"strconv"
 	"strings"
 )
 
@@ -30,6 +31,13 @@ func (s State) clone() State {
 
 // VC is the verification context of one function under contract.
 type VC struct {
+	nonNil  map[string]bool
+	mem     map[string]*memNode  // memory versions by name
+	allocP  map[string][]string  // alloc term -> parent alloc terms (it is >= each of them)
+	bornLt  map[string]string    // reference term -> alloc term it is known to be below
+	isAlloc map[string]bool      // reference terms that are allocation results (ref == alloc term before)
+	allocAfter map[string]string // allocation result -> alloc term right after it
+	distinct   map[[2]string]bool // pairs of reference terms assumed / known different
 	S       *Script
 	ls      *layouts
 	obls    []*Obligation
@@ -89,13 +97,226 @@ func (vc *VC) defMem(body string) string {
 	return n
 }
 
+// memNode: Go-side description of a memory version, used to resolve reads over
+// writes to provably different objects at generation time (keeps the queries small).
+type memNode struct {
+	kind   int // 0 opaque, 1 store, 2 alloc (zero), 3 allocWith/copy (writes only ref), 4 merge
+	conds  []string
+	ins    []string
+	before string // kind 5: objects older than this alloc term are unchanged (no modifies clause)
+	ref    string
+	off    string
+	vals   Val
+	parent string
+}
+
 func sel(mem, ref, off string) string { return sx(mem, ref, off) }
+
+// splitOff normalises an offset term into base + constant.
+func splitOff(t string) (string, int64) {
+	var c int64
+	for {
+		if n, err := strconv.ParseInt(t, 10, 64); err == nil {
+			return "", c + n
+		}
+		if strings.HasPrefix(t, "(+ ") && strings.HasSuffix(t, ")") {
+			body := t[3 : len(t)-1]
+			// last argument constant?
+			k := strings.LastIndex(body, " ")
+			if k > 0 {
+				if n, err := strconv.ParseInt(body[k+1:], 10, 64); err == nil && balanced(body[:k]) {
+					c += n
+					t = body[:k]
+					continue
+				}
+			}
+		}
+		return t, c
+	}
+}
+
+// splitOffC: like splitOff, but looks through defined names.
+func (vc *VC) splitOffC(t string) (string, int64) {
+	var c int64
+	for i := 0; i < 8; i++ {
+		b, k := splitOff(t)
+		c += k
+		if b == "" {
+			return "", c
+		}
+		d, ok := vc.S.alias[b]
+		if !ok {
+			return b, c
+		}
+		t = d
+	}
+	return t, c
+}
+
+func balanced(s string) bool {
+	d := 0
+	for _, ch := range s {
+		if ch == '(' {
+			d++
+		} else if ch == ')' {
+			d--
+			if d < 0 {
+				return false
+			}
+		} else if ch == ' ' && d == 0 {
+			return false
+		}
+	}
+	return d == 0
+}
+
+// allocGeq: alloc term b >= alloc term a on every path (by construction of the terms)
+func (vc *VC) allocGeq(b, a string, depth int) bool {
+	if a == b {
+		return true
+	}
+	if depth > 400 {
+		return false
+	}
+	ps, ok := vc.allocP[b]
+	if !ok || len(ps) == 0 {
+		return false
+	}
+	for _, p := range ps {
+		if !vc.allocGeq(p, a, depth+1) {
+			return false
+		}
+	}
+	return true
+}
+
+// distinctRefs: the two reference terms denote different objects on every path.
+func (vc *VC) canon(a string) string {
+	for i := 0; i < 4; i++ {
+		t, ok := vc.S.alias[a]
+		if !ok {
+			return a
+		}
+		a = t
+	}
+	return a
+}
+
+func (vc *VC) markDistinct(a, b string) {
+	a, b = vc.canon(a), vc.canon(b)
+	vc.distinct[[2]string{a, b}] = true
+	vc.distinct[[2]string{b, a}] = true
+}
+
+func (vc *VC) distinctRefs(a, b string) bool {
+	if a == b {
+		return false
+	}
+	if vc.distinct[[2]string{vc.canon(a), vc.canon(b)}] {
+		return true
+	}
+	if vc.isAlloc[a] && vc.isAlloc[b] {
+		// a's value is its alloc term; the later one is >= earlier+1
+		if vc.allocAfter[a] != "" && vc.allocGeq(b, vc.allocAfter[a], 0) {
+			return true
+		}
+		if vc.allocAfter[b] != "" && vc.allocGeq(a, vc.allocAfter[b], 0) {
+			return true
+		}
+		return false
+	}
+	if vc.isAlloc[a] {
+		if lt, ok := vc.bornLt[b]; ok && vc.allocGeq(a, lt, 0) {
+			return true
+		}
+	}
+	if vc.isAlloc[b] {
+		if lt, ok := vc.bornLt[a]; ok && vc.allocGeq(b, lt, 0) {
+			return true
+		}
+	}
+	return false
+}
+
+// read resolves one cell read against the chain of memory versions.
+func (vc *VC) read(mem, ref, off string) string {
+	cur := mem
+	ob, oc := vc.splitOffC(off)
+	for steps := 0; steps < 2000; steps++ {
+		n := vc.mem[cur]
+		if n == nil || n.kind == 0 {
+			break
+		}
+		if n.kind == 5 {
+			// frame of a call / loop without modifies clause: old objects are unchanged
+			lt, ok := vc.bornLt[ref]
+			if !ok {
+				lt, ok = vc.bornLt[vc.canon(ref)]
+			}
+			if ok && vc.allocGeq(n.before, lt, 0) {
+				cur = n.parent
+				continue
+			}
+			if vc.isAlloc[ref] && vc.allocAfter[ref] != "" && vc.allocGeq(n.before, vc.allocAfter[ref], 0) {
+				cur = n.parent
+				continue
+			}
+			break
+		}
+		if n.kind == 4 {
+			rs := make([]string, len(n.ins))
+			same := true
+			total := 0
+			for i, m := range n.ins {
+				rs[i] = vc.read(m, ref, off)
+				total += len(rs[i])
+				if rs[i] != rs[0] {
+					same = false
+				}
+			}
+			if same {
+				return rs[0]
+			}
+			if total > 1500 {
+				break
+			}
+			t := rs[len(rs)-1]
+			for i := len(rs) - 2; i >= 0; i-- {
+				t = ite(n.conds[i], rs[i], t)
+			}
+			return t
+		}
+		if n.ref == ref {
+			if n.kind == 1 {
+				nb, nc := vc.splitOffC(n.off)
+				if nb == ob {
+					d := oc - nc
+					if d >= 0 && d < int64(len(n.vals)) {
+						return b2i(n.vals[d])
+					}
+					cur = n.parent
+					continue
+				}
+			}
+			if n.kind == 2 {
+				return "0"
+			}
+			break
+		}
+		if vc.distinctRefs(ref, n.ref) {
+			cur = n.parent
+			continue
+		}
+		break
+	}
+	return sel(cur, ref, off)
+}
 
 // load reads the cells of layout l at (ref, off).
 func (vc *VC) load(st *State, l *layout, ref, off string) Val {
 	v := make(Val, len(l.cells))
 	for i, ci := range l.cells {
-		t := sel(st.Mem, ref, add(off, itoa(int64(i))))
+		t := vc.read(st.Mem, ref, add(off, itoa(int64(i))))
 		if ci.kind == kBool {
 			v[i] = bc(i2b(t))
 		} else {
@@ -122,39 +343,82 @@ func (vc *VC) store(st *State, ref, off string, v Val) {
 		cond := and(eq("r", ref), sx(">=", "o", off), sx("<", "o", add(off, itoa(int64(len(v))))))
 		body = ite(cond, inner, sel(st.Mem, "r", "o"))
 	}
+	parent := st.Mem
 	st.Mem = vc.defMem(body)
+	vc.mem[st.Mem] = &memNode{kind: 1, ref: ref, off: off, vals: v, parent: parent}
+}
+
+func (vc *VC) bumpAlloc(st *State, ref string) {
+	vc.isAlloc[ref] = true
+	vc.nonNil[ref] = true
+	old := st.Alloc
+	st.Alloc = vc.S.def("alloc", ic(add(ref, "1"))).T
+	vc.allocP[ref] = []string{old}
+	if ref != old {
+		// ref is a name for the old alloc term
+		vc.allocP[ref] = []string{old}
+	}
+	vc.allocP[st.Alloc] = []string{ref}
+	vc.allocAfter[ref] = st.Alloc
 }
 
 // alloc returns a fresh object reference whose cells are all zero.
 func (vc *VC) alloc(st *State, what string) string {
 	ref := vc.S.def("ref_"+what, ic(st.Alloc)).T
-	st.Alloc = vc.S.def("alloc", ic(add(ref, "1"))).T
+	if ref == st.Alloc {
+		// force a distinct name so the reference has its own identity
+		n := vc.S.fresh("ref_" + what)
+		vc.S.raw(fmt.Sprintf("(define-fun %s () Int %s)", n, st.Alloc))
+		ref = n
+	}
+	vc.bumpAlloc(st, ref)
+	parent := st.Mem
 	st.Mem = vc.defMem(ite(eq("r", ref), "0", sel(st.Mem, "r", "o")))
+	vc.mem[st.Mem] = &memNode{kind: 2, ref: ref, parent: parent}
 	return ref
 }
 
 // allocWith returns a fresh object whose cell o holds at(o) for 0 <= o < n and 0 elsewhere.
 func (vc *VC) allocWith(st *State, what string, n string, at func(o string) string) string {
 	ref := vc.S.def("ref_"+what, ic(st.Alloc)).T
-	st.Alloc = vc.S.def("alloc", ic(add(ref, "1"))).T
+	if ref == st.Alloc {
+		nn := vc.S.fresh("ref_" + what)
+		vc.S.raw(fmt.Sprintf("(define-fun %s () Int %s)", nn, st.Alloc))
+		ref = nn
+	}
+	vc.bumpAlloc(st, ref)
+	parent := st.Mem
 	st.Mem = vc.defMem(ite(eq("r", ref), ite(and(sx("<=", "0", "o"), sx("<", "o", n)), at("o"), "0"), sel(st.Mem, "r", "o")))
+	vc.mem[st.Mem] = &memNode{kind: 3, ref: ref, parent: parent}
 	return ref
 }
 
 // copyCells: dst[doff .. doff+n) := src[soff .. soff+n)  (memmove semantics: reads the old memory)
 func (vc *VC) copyCells(st *State, dref, doff, sref, soff, n string) {
 	cond := and(eq("r", dref), sx("<=", doff, "o"), sx("<", "o", add(doff, n)))
+	parent := st.Mem
 	st.Mem = vc.defMem(ite(cond, sel(st.Mem, sref, add(soff, sub("o", doff))), sel(st.Mem, "r", "o")))
+	vc.mem[st.Mem] = &memNode{kind: 3, ref: dref, parent: parent}
+}
+
+// havocFrame: everything allocated before `before` is kept, the rest is unconstrained.
+func (vc *VC) havocFrame(st *State, before string) string {
+	h := vc.declMem("Mh")
+	parent := st.Mem
+	st.Mem = vc.defMem(ite(sx("<", "r", before), sel(st.Mem, "r", "o"), sel(h, "r", "o")))
+	vc.mem[st.Mem] = &memNode{kind: 5, before: before, parent: parent}
+	return h
 }
 
 // havocMem replaces memory by an unconstrained one except where keep(r,o) holds.
-func (vc *VC) havocMem(st *State, keep string) {
+func (vc *VC) havocMem(st *State, keep string) string {
 	h := vc.declMem("Mh")
 	if keep == "" || keep == "false" {
 		st.Mem = h
-		return
+		return h
 	}
 	st.Mem = vc.defMem(ite(keep, sel(st.Mem, "r", "o"), sel(h, "r", "o")))
+	return h
 }
 
 // ---- joins ------------------------------------------------------------------
@@ -183,6 +447,12 @@ func (vc *VC) mergeStates(in []incoming) State {
 			body = ite(in[i].cond, sel(in[i].st.Mem, "r", "o"), body)
 		}
 		out.Mem = vc.defMem(body)
+		mn := &memNode{kind: 4}
+		for _, e := range in {
+			mn.conds = append(mn.conds, e.cond)
+			mn.ins = append(mn.ins, e.st.Mem)
+		}
+		vc.mem[out.Mem] = mn
 	}
 	// alloc
 	t := in[len(in)-1].st.Alloc
@@ -190,6 +460,13 @@ func (vc *VC) mergeStates(in []incoming) State {
 		t = ite(in[i].cond, in[i].st.Alloc, t)
 	}
 	out.Alloc = vc.S.def("alloc", ic(t)).T
+	if _, seen := vc.allocP[out.Alloc]; !seen {
+		var ps []string
+		for _, e := range in {
+			ps = append(ps, e.st.Alloc)
+		}
+		vc.allocP[out.Alloc] = ps
+	}
 	// ghosts
 	keys := map[string]bool{}
 	for _, e := range in {
